@@ -737,7 +737,7 @@ Theorem ods_run_total : forall evs mode st,
 Proof.
   induction evs as [|ev evs IH]; intros mode st; cbn [ods_run].
   - destruct mode; split; discriminate.
-  - destruct mode as [|name v|acc].
+  - destruct mode as [|name v|acc ret].
     + destruct ev as [n a|n|t|t|]; try apply IH.
       destruct (str_eqb n o_style); [apply IH|].
       destruct ((match od_style_name st with Some _ => true | None => false end) && str_eqb n o_tprops).
@@ -747,7 +747,9 @@ Proof.
       destruct (str_eqb n o_table).
       { destruct (get_attribute a o_tname); apply IH. }
       destruct (str_eqb n o_nexprs); apply IH.
-    + destruct ev as [n a|n|t|t|]; try apply IH. destruct (str_eqb n o_table); apply IH.
+    + destruct ev as [n a|n|t|t|]; try apply IH.
+      * destruct (str_eqb n o_nexprs); apply IH.
+      * destruct (str_eqb n o_table); apply IH.
     + destruct ev as [n a|n|t|t|]; try apply IH; try (split; discriminate).
       * destruct (str_eqb n o_nrange || str_eqb n o_nexpr); [apply IH|split; discriminate].
       * destruct (str_eqb n o_nrange || str_eqb n o_nexpr); [apply IH|].
